@@ -249,6 +249,53 @@ def run(rep, pid, feats, n, findings, rule, gover="1.21", tapes=3, histlen=10, b
         rep.violation(rep.write_replay("structural", replay), "no-failing-input-found")
         return R, progs
 
+    # ---- scoping model (coq/Scope.v, ScopeExec.v): the scope lists of the REAL output tree vs those of the source ----
+    if pid == "C03" and ents and not unexplained:
+        xw = C.workdir(pid + "sx")
+        try:
+            codes = structcheck.scope_compare(xw, ents)
+        finally:
+            C.rmtree(xw)
+        sc = {"programs_compared": sum(1 for c in codes if c % 10 != 0),
+              "every_name_of_the_real_output_resolves_as_in_the_source": sum(1 for c in codes if c % 10 == 1),
+              "some_name_resolves_differently": sum(1 for c in codes if c % 10 == 2),
+              "within_C03_static_scoping_theorem": sum(1 for c in codes if (c // 10) % 10 == 1),
+              "within_theorem_but_scope_lists_differ": sum(1 for c in codes if (c // 10) % 10 == 1 and c >= 1000),
+              "scope_lists_differ_but_no_mentioned_name_is_affected": sum(1 for c in codes if c >= 1000 and c % 10 == 1),
+              "partial_redeclaration_separated_from_its_declaration_F24_shape": sum(1 for c in codes if (c // 100) % 10 == 1),
+              "F24_shape_predicate_of_the_generator_disagrees_with_the_model": sum(
+                  1 for e, c in zip(ents, codes) if c % 10 != 0 and ((c // 100) % 10 == 1) != ("F24" in shapes[e[0]]))}
+        rep.coverage["scope_model"] = sc
+        bad = [(e[0], c) for e, c in zip(ents, codes)
+               if (c % 10 == 2 and not (shapes[e[0]] & set(findings))) or ((c // 100) % 10 == 1 and "F24" not in shapes[e[0]])
+               or ((c // 10) % 10 == 1 and c >= 1000)]
+        if bad:
+            name, code = bad[0]
+            prog = by[name]
+            what = ("in the generated code some name denotes another declaration than in the source "
+                    "(coq/ScopeExec.v check_xcase on the abstract tree of the real output)" if code % 10 == 2 else
+                    "the scope lists of the real output differ from the source's on a body inside the theorem C03_static_scoping_partial: the model "
+                    "of the rewriter no longer describes the code" if (code // 100) % 10 != 1 else
+                    "a partial redeclaration 'x, n := ...' has been moved out of the block that declared x (coq/ScopeExec.v sameblk): it now declares a new x")
+            rr = cdiff.run_batch(pid + "x", [dict(prog, name="X0")], random.Random(3), tapes=16, histlen=14, budget=budget, gover=gover)
+            dd = cdiff.compare(rr["cases"], rr["out"], rr["ref"])
+            if dd or rr["status"].get("X0", "ok") != "ok":
+                rep.violation(rep.write_replay("scope_and_behavioural", {
+                    "what": what + "; and the compiled program misbehaves / does not build",
+                    "program_go_co": pgen.render_func(name, prog["body"], "co"), "program_abstract": prog["body"],
+                    "tape": rr["cases"][dd[0]]["tape"] if dd else None, "history": rr["cases"][dd[0]]["hist"] if dd else None,
+                    "compiled_events": rr["out"][dd[0]]["events"] if dd else None,
+                    "reference_events": rr["ref"][dd[0]]["events"] if dd else None,
+                    "status": rr["status"].get("X0"), "go_version_of_user_module": gover}))
+            else:
+                rep.violation(rep.write_replay("scope", {
+                    "what": "correspondence broken: " + what,
+                    "correspondence": "lib/structcheck.py scope_compare: coq/ScopeExec.v check_xcase, code %d" % code,
+                    "program_go_co": pgen.render_func(name, prog["body"], "co"), "program_abstract": prog["body"],
+                    "searched": "16 tapes x 14 advances on this program: compiled and reference runs agree",
+                    "other_programs": len(bad) - 1}), "no-failing-input-found")
+            return R, progs
+
     # ---- behavioural correspondence: Coq semantics (Sem.v / CExec.v) vs reference run and compiled run ----
     rows, rmeta = [], []
     for ci, c in enumerate(R["cases"]):
